@@ -18,7 +18,11 @@ def run_plan(pid, tier, work, plan):
     t0 = time.time()
     thorough = tier == "thorough"
     if "--replay" in sys.argv:
-        return storelib.replay_file(pid, sys.argv[sys.argv.index("--replay") + 1], work)
+        rp = sys.argv[sys.argv.index("--replay") + 1]
+        if '"ops":[' in open(rp).readline():
+            import lincheck
+            return lincheck.replay(pid, rp, work)
+        return storelib.replay_file(pid, rp, work)
     v = vlib.Verdict(pid, work)
     classify = plan.get("classify", classify_default)
     states = trans = 0
@@ -96,8 +100,15 @@ def run_plan(pid, tier, work, plan):
         ex = apicheck.run(work, v, pid, thorough)
         cov["traces_validated_against_impl"] += ex.pop("_traces", 0)
         cov.update(ex)
+    if plan.get("lin"):
+        import lincheck
+        ex = lincheck.run(work, v, pid, thorough)
+        cov["traces_validated_against_impl"] += ex.pop("_traces", 0)
+        cov["states"] += ex.pop("_states", 0)
+        cov.update(ex)
     rc = v.finish()
     vlib.write_evidence(pid, tier, plan.get("level", "model_checking"), cov, plan.get("assumptions", []) + (
-        ["public API layer: sequential programs (plain and loading caches; cost function, doorkeeper, removal listener; every write followed by Wait) through cache.go/builder.go, validated against the sequential observer ApiTrace.tla"] if plan.get("api") else []), time.time() - t0,
+        ["public API layer: sequential programs (plain and loading caches; cost function, doorkeeper, removal listener; every write followed by Wait) through cache.go/builder.go, validated against the sequential observer ApiTrace.tla"] if plan.get("api") else []) + (
+        ["hook-free histories: concurrent clients on caches built with the public builder (plain/loading, entry pool, doorkeeper, short TTLs, tiny and ample MaxSize); only calls, results and stamps of one shared atomic counter are recorded; TLC searches a linearization of every per-key history (LinSearch.tla)"] if plan.get("lin") else []), time.time() - t0,
                         len(v.violations))
     return rc
